@@ -417,7 +417,7 @@ def read_meme(filename, n_motifs=None):
 		for line in infile:
 			if motif is None:
 				if line[:5] == 'MOTIF':
-					motif = line.replace('MOTIF ', '').strip("\r\n")
+					motif = line.replace('MOTIF ', '').strip("\r\n").rstrip()
 				else:
 					continue
 
